@@ -1,6 +1,7 @@
 import Lean.Data.Json
 import CbiVerif.Model.FSource
 import CbiVerif.Model.FCleanCells
+import CbiVerif.Model.FLoopCells
 import CbiVerif.Spec.FortranRef
 import CbiVerif.Model.FCond
 import CbiVerif.PP.Analyse
@@ -94,7 +95,38 @@ def handleCells (j : Json) : Json :=
       Json.arr ((List.range 128).map fun n => cent (dCell (st.map dModeOfId) b (Char.ofNat n))).toArray).toArray).toArray),
     ("dnewline", Json.arr (dstacks.map fun st => cent (dNewlineCell (st.map dModeOfId))).toArray)]
 
+/-! ## `floop_cells`: the model's loop iterations, to be diffed against the regenerated loop table
+
+`{"op":"floop_cells","configs":[{"pre":[[[lines],[text code points],isDirective]],"n":number of physical lines of the
+  prefix,"probes":[{"c":[[[lines],[code points],isDirective]],"n":number of physical lines of the probe}]}]}` →
+`{"configs":[{"key":[[stack ids],[verify_continue],category,empty,trailing],"rows":[entry]}]}`, entry =
+`[raises, [yield], [[stack ids],[verify_continue]], [yield], eofRaises, [yield], [yield]]`, yield = `[[lines],[code points],isDir]`
+— `Regen.loopObs` / `Regen.absCfg` of `Model/FLoopCells.lean`, the functions `C17.floop_table_agrees` is about. -/
+open CbiVerif.Fortran.Regen in
+def handleLoopCells (j : Json) : Json :=
+  let nats (x : Json) : List Nat := ((fromJson? x : Except String (Array Nat)).toOption.getD #[]).toList
+  let yIn (x : Json) : Y :=
+    match x with
+    | .arr a => (nats (a[0]?.getD Json.null), nats (a[1]?.getD Json.null), (a[2]?.getD Json.null).getBool?.toOption.getD false)
+    | _ => ([], [], false)
+  let ysIn (x : Json) : List Y := match x with | .arr a => a.toList.map yIn | _ => []
+  let yOut (y : Y) : Json := Json.arr #[natArr y.1, natArr y.2.1, Json.bool y.2.2]
+  let ysOut (l : List Y) : Json := Json.arr (l.map yOut).toArray
+  let cfgs := match j.getObjVal? "configs" with | .ok (.arr a) => a.toList | _ => []
+  Json.mkObj [("configs", Json.arr (cfgs.map fun c =>
+    let pre := ysIn ((c.getObjVal? "pre").toOption.getD Json.null)
+    let n0 := (c.getObjValAs? Nat "n").toOption.getD 0
+    let k := cfgAfter pre
+    let key := absCfg k
+    let probes := match c.getObjVal? "probes" with | .ok (.arr a) => a.toList | _ => []
+    Json.mkObj [
+      ("key", Json.arr #[natArr key.1.1, natArr key.1.2, (key.2.1 : Nat), Json.bool key.2.2.1, Json.bool key.2.2.2]),
+      ("rows", Json.arr (probes.map fun p =>
+        let e := loopObs k (n0 + (p.getObjValAs? Nat "n").toOption.getD 0) (ysIn ((p.getObjVal? "c").toOption.getD Json.null))
+        Json.arr #[Json.bool e.1, ysOut e.2.1, Json.arr #[natArr e.2.2.1.1, natArr e.2.2.1.2], ysOut e.2.2.2.1,
+                   Json.bool e.2.2.2.2.1, ysOut e.2.2.2.2.2.1, ysOut e.2.2.2.2.2.2]).toArray)]).toArray)]
+
 def handlers : List (String × (Json → Json)) :=
-  [("fortran", handleFortran), ("fortran_cond", handleCond), ("fclean_cells", handleCells)]
+  [("fortran", handleFortran), ("fortran_cond", handleCond), ("fclean_cells", handleCells), ("floop_cells", handleLoopCells)]
 
 end CbiVerif.Drv.Fortran
